@@ -12,8 +12,11 @@ import traceback
 from . import tlc as _tlc
 
 VERIF = os.path.dirname(os.path.dirname(os.path.abspath(__file__)))
-EVIDENCE_DIR = os.path.join(VERIF, "evidence")
-REPLAY_DIR = os.path.join(VERIF, "replays")
+# evidence and replay files describe /repo itself: a run against a scratch copy (seeded change,
+# VERIF_REPO=...) writes its own elsewhere and never overwrites them
+_SCRATCH = os.path.abspath(os.environ.get("VERIF_REPO", "/repo")) != "/repo"
+EVIDENCE_DIR = os.path.join(VERIF, ".work", "scratch_evidence_%d" % os.getpid()) if _SCRATCH else os.path.join(VERIF, "evidence")
+REPLAY_DIR = os.path.join(VERIF, ".work", "scratch_replays") if _SCRATCH else os.path.join(VERIF, "replays")
 FINDINGS_FILE = os.path.join(VERIF, "known_findings.json")
 
 
